@@ -369,7 +369,7 @@ fn encode_section(
         assert(items_in_section@.subrange(0, items_in_section@.len() as int) =~= items_in_section@);
     }
     let (out_bytes, uncompress_buf_size) = if compress {
-        let compressed_data = deflate_vec(&bytes);
+        let compressed_data = deflate_vec(&bytes); let actual_sz = compressed_data.len(); let max_sz = actual_sz;
         (compressed_data, bytes.len())
     } else {
         (bytes.bytes, 0)
